@@ -45,7 +45,16 @@ func (g *Gen) query(o *Oblig, extra string) string {
 	if n > len(g.defs) {
 		n = len(g.defs)
 	}
-	for _, d := range g.defs[:n] {
+	skip := map[int]bool{}
+	if o.NoAssumed {
+		for _, i := range g.assumedIdx {
+			skip[i] = true
+		}
+	}
+	for i, d := range g.defs[:n] {
+		if skip[i] {
+			continue
+		}
 		sb.WriteString(d + "\n")
 	}
 	fmt.Fprintf(&sb, "; obligation %s : %s\n", o.Name, strings.ReplaceAll(o.Desc, "\n", " "))
